@@ -215,6 +215,25 @@ int verif_fcntl(int fd, int cmd, long arg)
     g.fds.nonblock = (arg & O_NONBLOCK) ? (g.fds.nonblock | BIT(fd)) : (g.fds.nonblock & ~BIT(fd));
     return 0;
   }
+  if (cmd == F_DUPFD_CLOEXEC || cmd == F_DUPFD) {
+    /* an arbitrary free descriptor numbered >= arg referring to the same object */
+    int nfd = fd_fresh();
+    if (nfd < 0 || nfd < arg) {
+      fault(EMFILE);
+      return -1;
+    }
+    g.fds.open |= BIT(nfd);
+    g.fds.lib |= BIT(nfd);
+    g.fds.cloexec = (cmd == F_DUPFD_CLOEXEC) ? (g.fds.cloexec | BIT(nfd)) : (g.fds.cloexec & ~BIT(nfd));
+    g.fds.nonblock = (g.fds.nonblock & BIT(fd)) ? (g.fds.nonblock | BIT(nfd)) : (g.fds.nonblock & ~BIT(nfd));
+    g.fds.rd = (g.fds.rd & BIT(fd)) ? (g.fds.rd | BIT(nfd)) : (g.fds.rd & ~BIT(nfd));
+    g.fds.wr = (g.fds.wr & BIT(fd)) ? (g.fds.wr | BIT(nfd)) : (g.fds.wr & ~BIT(nfd));
+    g.fds.obj[nfd] = g.fds.obj[fd];
+    if (fd == gc.want_exit_fd) {
+      g.exit_moved_to = nfd; /* the launch contract follows the exit handle */
+    }
+    return nfd;
+  }
   V_ASSERT("C14/os.fcntl.known_command", 0);
   g.e.err = EINVAL;
   return -1;
@@ -697,12 +716,15 @@ int verif_execvp(const char *file, char *const argv[])
 
   /* C11: every other open descriptor is close-on-exec, except the exit handle */
   {
-    uint32_t keep = 7u | MASK_OF(gc.want_exit_fd);
+    /* the exit handle: the descriptor start was given, or - when that one is
+       numbered like a standard stream - the duplicate the library moved it to */
+    int exit_fd = (gc.want_exit_fd >= 0 && gc.want_exit_fd <= 2 && g.exit_moved_to >= 0) ? g.exit_moved_to : gc.want_exit_fd;
+    uint32_t keep = 7u | MASK_OF(exit_fd);
     V_ASSERT("C11/exec.nothing_else_inherited",
              (g.fds.open & ~g.fds.cloexec & ~keep) == 0);
     V_ASSERT("C11/exec.exit_handle_inherited",
-             IS_OPEN(gc.want_exit_fd) &&
-                 (gc.want_exit_fd <= 2 || (g.fds.cloexec & BIT(gc.want_exit_fd)) == 0));
+             IS_OPEN(exit_fd) && exit_fd > 2 && (g.fds.cloexec & BIT(exit_fd)) == 0 &&
+                 g.fds.obj[exit_fd] == gc.want_exit_obj);
   }
 
   V_ASSERT("C12/exec.signal_mask_empty", g.sigmask == 0);
